@@ -82,7 +82,18 @@ structure Params where
   gamma : Rat            -- relaxation_gamma
   upperBound : Rat       -- static_cast<float>(upper_bound)
   enforceInitialPositivity : Bool
+  /-- `precomputed denominator := 1` (the file name "1": denominator of ones instead of the Hessian on ones) -/
+  denominatorOnes : Bool := false
   deriving Repr, Inhabited
+
+/-- `OSSPSReconstruction::set_defaults` (l.60-75) on top of `IterativeReconstruction::set_defaults`:
+    one subset, start subset 0, one sub-iteration, relaxation 1, gamma `0.1F`, upper bound `FLT_MAX`,
+    `enforce_initial_positivity = 0`, denominator computed -/
+def Params.default : Params :=
+  { numSubsets := 1, startSubset := 0, numSubiterations := 1, alpha := 1,
+    gamma := 13421773 / 134217728,                                  -- 0.1F
+    upperBound := 340282346638528859811704183484516925440,          -- NumericInfo<float>().max_value()
+    enforceInitialPositivity := false, denominatorOnes := false }
 
 /-- what `OSSPSReconstruction` uses of its objective function -/
 structure Objective where
@@ -123,7 +134,8 @@ def setUp (p : Params) (obj : Objective) (start : Int) (target : Img) : Option (
   else if !obj.priorParabolic then none
   else
     let target' := if p.enforceInitialPositivity then thresholdMinToSmallPositiveValue target smallNumber else target
-    some (target', precomputeDenominator obj)
+    -- l.251-260
+    some (target', if p.denominatorOnes then target.map (fun _ => 1) else precomputeDenominator obj)
 
 /-- `recompute_penalty_term_in_denominator` (l.294) -/
 def recomputePenalty (obj : Objective) : Bool := !obj.priorIsZero && obj.curvDepends
@@ -133,29 +145,40 @@ def workDenominator (obj : Objective) (x denom : Img) : Img :=
   let work := if !obj.priorIsZero then List.zipWith (fun c d => c * 2 + d) (obj.curv x) denom else denom
   thresholdMinToSmallPositiveValue work smallNumber
 
-/-- `OSSPSReconstruction::update_estimate` (l.282-406); `start` is `start_subiteration_num`.  `k` is left unchanged. -/
+/-- l.285-289: at the first sub-iteration of a run the non-identifiable voxels are set to 0 -/
+def currentImage (obj : Objective) (first : Bool) (image : Img) : Img :=
+  if first then obj.fillNonIdent image else image
+
+/-- the image the numerator is divided by (l.323-369): freshly computed when the penalty term has to be recomputed or at
+    the first sub-iteration of a run, otherwise `*precomputed_denominator_ptr` -/
+def denomUsed (obj : Objective) (first : Bool) (x denom : Img) : Img :=
+  if recomputePenalty obj || first then workDenominator obj x denom else denom
+
+/-- `*precomputed_denominator_ptr` after the sub-iteration: l.350-354 "store for future use" -/
+def denomStored (obj : Objective) (first : Bool) (x denom : Img) : Img :=
+  if recomputePenalty obj || first then
+    (if !recomputePenalty obj then workDenominator obj x denom else denom)
+  else denom
+
+/-- the additive update image (`*numerator_ptr` at l.394):
+    l.312 sub-gradient of the scheduled subset, l.314 `* num_subsets`, l.357/364 `/ denominator`,
+    l.372-380 `* relaxation_parameter * alpha` with `alpha = 1.F` -/
+def additiveUpdate (p : Params) (obj : Objective) (k : Int) (x D : Img) : Img :=
+  let subset := subsetNum k p.startSubset p.numSubsets
+  let numerator := (obj.grad subset x).map (fun g => g * (p.numSubsets : Rat))
+  let numerator := List.zipWith (fun n d => n / d) numerator D
+  let zeta := relaxation p.alpha p.gamma k p.numSubsets
+  numerator.map (fun v => v * zeta * 1)
+
+/-- `OSSPSReconstruction::update_estimate` (l.282-406); `start` is `start_subiteration_num`.  `k` is left unchanged.
+    l.394 `current_image_estimate += *numerator_ptr`, l.405 `threshold_upper_lower(…, 0.F, static_cast<float>(upper_bound))`. -/
 def updateEstimate (p : Params) (obj : Objective) (start : Int) (s : State) : State :=
   let first := s.k == start
-  -- l.285-289
-  let x := if first then obj.fillNonIdent s.image else s.image
-  let recompute := recomputePenalty obj
-  let subset := subsetNum s.k p.startSubset p.numSubsets
-  -- l.312-314
-  let numerator := (obj.grad subset x).map (fun g => g * (p.numSubsets : Rat))
-  -- l.323-369
-  let (numerator, denom') :=
-    if recompute || first then
-      let work := workDenominator obj x s.denom
-      (List.zipWith (fun n d => n / d) numerator work, if !recompute then work else s.denom)
-    else
-      (List.zipWith (fun n d => n / d) numerator s.denom, s.denom)
-  -- l.372-380
-  let zeta := relaxation p.alpha p.gamma s.k p.numSubsets
-  let numerator := numerator.map (fun v => v * zeta * 1)
-  -- l.394
-  let x := List.zipWith (fun a b => a + b) x numerator
-  -- l.397-405
-  { image := x.map (thresholdUpperLower 0 p.upperBound), denom := denom', k := s.k }
+  let x := currentImage obj first s.image
+  let D := denomUsed obj first x s.denom
+  { image := (List.zipWith (fun a b => a + b) x (additiveUpdate p obj s.k x D)).map (thresholdUpperLower 0 p.upperBound),
+    denom := denomStored obj first x s.denom,
+    k := s.k }
 
 /-- one turn of the loop of `IterativeReconstruction::reconstruct(target)` (no filters): update, `subiteration_num++` -/
 def step (p : Params) (obj : Objective) (start : Int) (s : State) : State :=
